@@ -219,72 +219,7 @@ func checkC01(c *Ctx) {
 		"per-iteration decode buffers in reader loops, and pending-entry pairing."
 	c.R.NotDecided = "that the answer's content was computed from this request's arguments under every interleaving; ordering of frames; behaviour of net/http"
 	c.R.Assumptions = []string{"a message's id is whatever is stored in its ID member when it is marshalled"}
-	ops := collectIDOperands(c)
-	n := map[string]int{}
-	nResp, nReq := 0, 0
-	conn := c.P.RootNamed("Connector")
-	clientOps := map[*ssa.Function]bool{}
-	if conn != nil {
-		iface := conn.Underlying().(*types.Interface)
-		for _, T := range c.P.Implementers(iface) {
-			for i := 0; i < iface.NumMethods(); i++ {
-				if m := c.P.Method(T, iface.Method(i).Name()); m != nil {
-					clientOps[m] = true
-				}
-			}
-		}
-	}
-	for _, op := range ops {
-		o := idOrigin(c, op.fn, op.v, 0)
-		key := op.kind + " id in " + fname(op.fn)
-		n[key]++
-		construct := key
-		if n[key] > 1 {
-			construct = sprintf("%s#%d", key, n[key])
-		}
-		switch op.kind {
-		case "response":
-			nResp++
-			ok := o == "request.ID" || o == "nil" || o == "message.ID" || o == "api parameter"
-			c.R.Check(ok, "R-id-echo", construct, c.Pos(op.at.Pos()), "id originates from "+o,
-				sprintf("%s builds a response/error whose id originates from %s, not from the ID member of the request it answers: the caller receives an answer that is not its own (or none it recognises)", fname(op.fn), o))
-		case "request":
-			if !clientOps[op.fn] {
-				continue
-			}
-			nReq++
-			c.R.Check(o == "atomic counter", "R-id-fresh", construct, c.Pos(op.at.Pos()), "id is the result of an atomic add on the client's counter",
-				sprintf("%s issues a request whose id originates from %s rather than an atomic increment of the client's counter: two calls in flight can share an id", fname(op.fn), o))
-		}
-	}
-	// response-building sites of one function are pairwise exclusive (no path builds two answers to one request)
-	byFn := map[*ssa.Function][]idOperand{}
-	var fnOrder []*ssa.Function
-	for _, op := range ops {
-		if op.kind != "response" {
-			continue
-		}
-		if _, seen := byFn[op.fn]; !seen {
-			fnOrder = append(fnOrder, op.fn)
-		}
-		byFn[op.fn] = append(byFn[op.fn], op)
-	}
-	for _, fn := range fnOrder {
-		sites := byFn[fn]
-		if len(sites) < 2 {
-			continue
-		}
-		bad := ""
-		for i := range sites {
-			for j := range sites {
-				if i != j && flow.Reaches(sites[i].at, sites[j].at) {
-					bad = sprintf("the answer built at %s can be followed by another built at %s", c.Pos(sites[i].at.Pos()), c.Pos(sites[j].at.Pos()))
-				}
-			}
-		}
-		c.R.Check(bad == "", "R-one-answer", "answers built in "+fname(fn), c.Pos(fn.Pos()), sprintf("%d response-building sites, pairwise exclusive", len(sites)),
-			sprintf("%s: %s — one request can get two answers", fname(fn), bad))
-	}
+	c01IDProvenance(c, true)
 	c.R.Min("R-id-echo", 40)
 	c.R.Min("R-id-fresh", 12)
 
@@ -572,4 +507,74 @@ func c01FreshBuffer(c *Ctx) {
 	}
 	c.R.Min("R-fresh-buffer", 1)
 	_ = n
+}
+
+// c01IDProvenance: R-id-echo (and, when fresh is set, R-id-fresh / the pairwise exclusivity of response-building sites).
+func c01IDProvenance(c *Ctx, fresh bool) {
+	ops := collectIDOperands(c)
+	n := map[string]int{}
+	nResp, nReq := 0, 0
+	conn := c.P.RootNamed("Connector")
+	clientOps := map[*ssa.Function]bool{}
+	if conn != nil {
+		iface := conn.Underlying().(*types.Interface)
+		for _, T := range c.P.Implementers(iface) {
+			for i := 0; i < iface.NumMethods(); i++ {
+				if m := c.P.Method(T, iface.Method(i).Name()); m != nil {
+					clientOps[m] = true
+				}
+			}
+		}
+	}
+	for _, op := range ops {
+		o := idOrigin(c, op.fn, op.v, 0)
+		key := op.kind + " id in " + fname(op.fn)
+		n[key]++
+		construct := key
+		if n[key] > 1 {
+			construct = sprintf("%s#%d", key, n[key])
+		}
+		switch op.kind {
+		case "response":
+			nResp++
+			ok := o == "request.ID" || o == "nil" || o == "message.ID" || o == "api parameter"
+			c.R.Check(ok, "R-id-echo", construct, c.Pos(op.at.Pos()), "id originates from "+o,
+				sprintf("%s builds a response/error whose id originates from %s, not from the ID member of the request it answers: the caller receives an answer that is not its own (or none it recognises)", fname(op.fn), o))
+		case "request":
+			if !clientOps[op.fn] || !fresh {
+				continue
+			}
+			nReq++
+			c.R.Check(o == "atomic counter", "R-id-fresh", construct, c.Pos(op.at.Pos()), "id is the result of an atomic add on the client's counter",
+				sprintf("%s issues a request whose id originates from %s rather than an atomic increment of the client's counter: two calls in flight can share an id", fname(op.fn), o))
+		}
+	}
+	// response-building sites of one function are pairwise exclusive (no path builds two answers to one request)
+	byFn := map[*ssa.Function][]idOperand{}
+	var fnOrder []*ssa.Function
+	for _, op := range ops {
+		if op.kind != "response" {
+			continue
+		}
+		if _, seen := byFn[op.fn]; !seen {
+			fnOrder = append(fnOrder, op.fn)
+		}
+		byFn[op.fn] = append(byFn[op.fn], op)
+	}
+	for _, fn := range fnOrder {
+		sites := byFn[fn]
+		if len(sites) < 2 || !fresh {
+			continue
+		}
+		bad := ""
+		for i := range sites {
+			for j := range sites {
+				if i != j && flow.Reaches(sites[i].at, sites[j].at) {
+					bad = sprintf("the answer built at %s can be followed by another built at %s", c.Pos(sites[i].at.Pos()), c.Pos(sites[j].at.Pos()))
+				}
+			}
+		}
+		c.R.Check(bad == "", "R-one-answer", "answers built in "+fname(fn), c.Pos(fn.Pos()), sprintf("%d response-building sites, pairwise exclusive", len(sites)),
+			sprintf("%s: %s — one request can get two answers", fname(fn), bad))
+	}
 }
